@@ -198,7 +198,30 @@ class AliasAnalysis:
             a = self._block(st.body, dict(env), ctx)
             b = self._block(st.orelse, dict(env), ctx)
             return self._join(a, b)
+        if isinstance(st, getattr(ast, 'Match', ())):
+            from .model import desugar_match
+            stmts = desugar_match(st)
+            if stmts is not None:
+                return self._block(stmts, env, ctx)
+            out = None
+            for case in st.cases:           # structural patterns: every case body may run
+                b = self._block(case.body, dict(env), ctx)
+                out = b if out is None else self._join(out, b)
+            return self._join(out, env) if out is not None else env
         if isinstance(st, (ast.For, ast.While)):
+            if isinstance(st, ast.For) and isinstance(st.iter, (ast.Tuple, ast.List)) and isinstance(st.target, ast.Name) and not st.orelse \
+                    and all(_literal(el, ctx.consts) is not _NOLIT for el in st.iter.elts) \
+                    and not any(isinstance(n, (ast.Break, ast.Continue)) for b in st.body for n in ast.walk(b)):
+                # a loop over a literal table of constants is unrolled, the loop variable bound to each constant in turn
+                saved = ctx.consts
+                try:
+                    for el in st.iter.elts:
+                        ctx.consts = dict(saved)
+                        ctx.consts[st.target.id] = _literal(el, saved)
+                        env = self._block(st.body, env, ctx)
+                finally:
+                    ctx.consts = saved
+                return env
             if isinstance(st, ast.For):
                 it = self._expr(st.iter, env, ctx)
                 env = self._assign(st.target, frozenset({FRESH}), None, env, ctx, st)
@@ -548,6 +571,20 @@ def _literal(n, consts):
         return n.value
     if isinstance(n, ast.Name) and n.id in consts:
         return consts[n.id]
+    if isinstance(n, ast.BinOp) and isinstance(n.op, ast.Add):
+        a, b = _literal(n.left, consts), _literal(n.right, consts)
+        if isinstance(a, str) and isinstance(b, str):
+            return a + b
+    if isinstance(n, ast.JoinedStr):
+        parts = []
+        for v in n.values:
+            if isinstance(v, ast.Constant) and isinstance(v.value, str):
+                parts.append(v.value)
+            elif isinstance(v, ast.FormattedValue) and v.conversion == -1 and v.format_spec is None and isinstance(_literal(v.value, consts), str):
+                parts.append(_literal(v.value, consts))
+            else:
+                return _NOLIT
+        return ''.join(parts)
     return _NOLIT
 
 
